@@ -39,7 +39,10 @@ func renderKey(fm string, shape []string, clause string) string {
 	if strings.HasPrefix(fm, "aft:") {
 		return "afterwards:" + strings.TrimPrefix(fm, "aft:") + ":" + strings.Join(shape, ",")
 	}
-	names := paramNames[strings.Replace(fm, "arr2:", "arr:", 1)]
+	names := paramNames[strings.Replace(strings.Replace(fm, "arr2:", "arr:", 1), "arrk:", "arr:", 1)]
+	if strings.HasPrefix(fm, "nest:") {
+		names = []string{"outer", "on", "history"}
+	}
 	p := make([]string, len(shape))
 	for i, s := range shape {
 		switch {
@@ -56,6 +59,14 @@ func renderKey(fm string, shape []string, clause string) string {
 		// two-step family: the method is called on a receiver that an earlier call has already changed
 		name = "after-prior-call." + strings.TrimPrefix(fm, "arr2:")
 	}
+	if strings.HasPrefix(fm, "arrk:") {
+		// mixed element kinds family: elements / needles / items of every scalar kind
+		name = "mixed-kinds." + strings.TrimPrefix(fm, "arrk:")
+	}
+	if strings.HasPrefix(fm, "nest:") {
+		// nested family: the method is called from inside the callback of another method call
+		name = "in-callback." + strings.TrimPrefix(fm, "nest:")
+	}
 	if strings.HasPrefix(fm, "str:") {
 		name = "string." + strings.TrimPrefix(fm, "str:")
 	}
@@ -63,7 +74,7 @@ func renderKey(fm string, shape []string, clause string) string {
 	if strings.HasSuffix(fm, "()") {
 		return name + "()(" + strings.Join(p, ",") + "):" + clause
 	}
-	if fm == "arr:length" || fm == "str:length" || fm == "arr2:length" {
+	if fm == "arr:length" || fm == "str:length" || fm == "arr2:length" || fm == "arrk:length" {
 		return name + " property(" + strings.Join(p, ",") + "):" + clause
 	}
 	return name + "(" + strings.Join(p, ",") + "):" + clause
